@@ -607,7 +607,68 @@ def r11_7(ctx):
                        'same-named option of the caller must be forwarded')
 
 
+def r11_9(ctx):
+    """(a) Dense Gauss-Seidel over an index list: the backward sweep visits the listed rows in the REVERSE ORDER OF THE LIST
+    (reversed / [::-1]); sorting the list (ascending or descending) relaxes the rows in another order for unsorted lists.
+    (b) The drivers do not write into their arguments: the right-hand side f is shared with the step closure
+    (local_mg_step(hs, A, f, ..)), so an in-place starting residual changes the problem that is being solved."""
+    from sa import effects
+    gs = ctx.prog.func(S + '.gauss_seidel')
+    bw = [s_ for s_ in own_nodes(gs.node) if isinstance(s_, ast.Assign) and src(s_.targets[0]) == 'indices'
+          and any((t_.replace(' ', '') in ("sweep=='backward'", "'backward'==sweep")) and p_ for (t_, p_, _n) in guards.path_conditions(s_))]
+    for s_ in bw:
+        v = s_.value
+        srt = [c for c in ast.walk(v) if isinstance(c, ast.Call) and call_name(c) in ('sorted', 'np.sort', 'np.argsort', 'np.unique')]
+        rev = any(isinstance(c, ast.Call) and call_name(c) == 'reversed' for c in ast.walk(v)) or '[::-1]' in src(v).replace(' ', '')
+        if srt:
+            ctx.violated('R11.9', gs.qual, src(s_), s_,
+                         'the backward sweep SORTS the index list: for an unsorted list (e.g. [6, 1, 8, 4]) the rows are relaxed in descending index '
+                         'order, not in the reverse of the stated order; the sparse kernels reverse the list, so dense and sparse disagree')
+        else:
+            ctx.decide('R11.9', gs.qual, src(s_), True if rev else None, s_, 'backward = the list reversed')
+    for q in (S + '.iterative_solve', S + '.twogrid', S + '.solve_hmultigrid'):
+        fi = ctx.prog.func(q)
+        ws = effects.external_writes(fi.node)
+        bad = [w for w in ws if w['definite'] and any(r.startswith('param:') for r in w['external'])
+               and not all(r in ('param:x', 'param:x0', 'param:u0') for r in w['external'])]
+        if bad:
+            w = bad[0]
+            ctx.violated('R11.9', fi.qual, src(w['node'])[:80], w['node'],
+                         'in-place %s on storage of the argument %s: the caller\'s right-hand side (which the step closure shares) is overwritten, so '
+                         'the iteration solves another system and reports convergence for it' % (w['kind'], ', '.join(sorted(x[6:] for x in w['external']))))
+        else:
+            ctx.met('R11.9', fi.qual, 'no in-place write to the matrix / right-hand side arguments', fi.node)
+
+
+def r11_10(ctx):
+    """The coarsest-level step of the local multigrid cycle is a CORRECTION of its iterate: x[ind] += B (f - A x)[ind].
+    Overwriting x[ind] = B f[ind] ignores the coupling of the free dofs to the other entries of x (prescribed Dirichlet
+    values); inside a cycle level 0 is only called with x = 0, but for a one-level space it receives the real iterate, and the
+    exact discrete solution with inhomogeneous Dirichlet values is then not a fixed point."""
+    st = ctx.prog.func(S + '.local_mg_step.<locals>.step')
+    lv0 = [s_ for s_ in own_nodes(st.node) if isinstance(s_, ast.If) and src(s_.test).replace(' ', '') in ('lv==0', '0==lv')]
+    if not lv0:
+        ctx.undecided('R11.10', st.qual, 'coarsest-level branch', st.node, 'not recognised')
+        return
+    body = lv0[0].body
+    stores = [s_ for s_ in body if isinstance(s_, (ast.Assign, ast.AugAssign)) and isinstance((s_.targets[0] if isinstance(s_, ast.Assign) else s_.target), ast.Subscript)]
+    if not stores:
+        ctx.undecided('R11.10', st.qual, 'update of the level-0 iterate', lv0[0], 'not recognised')
+        return
+    s0 = stores[0]
+    text = src(ast.Module(body, []))
+    residual = ('.dot(x' in text.replace(' ', '') or '@x' in text.replace(' ', '')) and isinstance(s0, ast.AugAssign)
+    overwrite = isinstance(s0, ast.Assign) and not any(isinstance(x, ast.Name) and x.id in ('x', 'x1') for x in ast.walk(s0.value))
+    ctx.decide('R11.10', st.qual, src(s0), True if residual else (False if overwrite else None), s0,
+               'residual correction on the coarsest level' if residual else
+               'the coarsest-level step overwrites the free dofs with B f[ind] and never reads the iterate: for a hierarchical space with a single '
+               'level the cycle ignores the prescribed (nonzero) Dirichlet values kept in x, so the exact discrete solution is not a fixed point '
+               '(deviation ~1; two and more levels are exact because level 0 is then only called with x = 0)', definite=True)
+
+
 def run(ctx):
+    r11_10(ctx)
+    r11_9(ctx)
     r11_1(ctx)
     r11_2(ctx)
     r11_3(ctx)
